@@ -162,16 +162,41 @@ Theorem C13_state_transitions : forall clk o w t,
 Proof. exact state_transitions. Qed.
 Print Assumptions C13_state_transitions.
 
+(* the context-manager protocol.  __exit__, called with (None, None, None) or with the exception triple of a with-body
+   that raised (exc = true), behaves the same: it never raises, returns None — so the body's exception propagates —,
+   stops a running watch at the reading it takes and leaves a fresh or stopped watch as it is *)
+Theorem C13_exit_spec : forall clk exc w t,
+  step clk (OExit exc) w t =
+  (match w_state w with
+   | SStarted => (mkWatch SStopped (w_started w) (Some (clk t)) (w_splits w) (w_duration w), S t)
+   | _ => (w, t)
+   end, Ok VNone).
+Proof. exact exit_spec. Qed.
+Print Assumptions C13_exit_spec.
+
+(* after  with sw: body [raise X]  (= __enter__(); body; __exit__(...)), for ANY body and whether or not it raised, the
+   watch is STOPPED; if the body left it running, _stopped_at is the reading taken by __exit__ (one reading); if the
+   body had stopped it, __exit__ changes nothing *)
+Theorem C13_with_block_stops : forall clk body exc w0 t0,
+  let c1 := final clk (OEnter :: body) w0 t0 in
+  let c2 := final clk (with_block body exc) w0 t0 in
+  w_state (fst c2) = SStopped /\
+  (w_state (fst c1) = SStarted -> w_stopped (fst c2) = Some (clk (snd c1)) /\ snd c2 = S (snd c1)) /\
+  (w_state (fst c1) = SStopped -> c2 = c1).
+Proof. exact with_block_stops. Qed.
+Print Assumptions C13_with_block_stops.
+
 (* the legality table, methods x states (rows: fresh, running, stopped; columns: start stop resume restart
-   split elapsed leftover expired has_started has_stopped splits __enter__ __exit__) *)
+   split elapsed leftover expired has_started has_stopped splits __enter__ __exit__(None, None, None)
+   __exit__(exception triple)) *)
 Theorem C13_legality_table : forall w m rn,
   map (fun o => legal o w) (all_ops m rn) =
   match w_state w with
-  | SNone =>    [true; false; false; true; false; false; false; false; true; true; true; true; true]
+  | SNone =>    [true; false; false; true; false; false; false; false; true; true; true; true; true; true]
   | SStarted => [true; true;  false; true; true;  true;
                  match w_duration w with Some _ => true | None => rn end;
-                                                                true;  true; true; true; true; true]
-  | SStopped => [true; true;  true;  true; false; true;  false; true;  true; true; true; true; true]
+                                                                true;  true; true; true; true; true; true]
+  | SStopped => [true; true;  true;  true; false; true;  false; true;  true; true; true; true; true; true]
   end.
 Proof. exact legality_table. Qed.
 Print Assumptions C13_legality_table.
